@@ -27,6 +27,28 @@ func runC03(ctx *core.Ctx) {
 	totality(ctx, []*ssa.Function{parse, parseFile}, totalOpts{rule: "TOT"})
 
 	searchRules(ctx, parse)
+	ctx.Rule("ONE", "one way through Parse: every return of Parse lies behind a call of the marker search (which also applies the final-newline fix to what it returns); a fast path around it yields a comment or body without the final newline and disagrees with the reference", 1)
+	{
+		g := graph(ctx.P, parse)
+		var searchCalls []*ssa.Call
+		for f, cs := range tupleCallees(ctx.P, parse) {
+			_ = f
+			searchCalls = append(searchCalls, cs...)
+		}
+		okOne := len(searchCalls) > 0
+		for _, r := range g.Returns() {
+			behind := false
+			for _, c := range searchCalls {
+				if g.Dominates(c, r) {
+					behind = true
+				}
+			}
+			if !behind {
+				okOne = false
+			}
+		}
+		ctx.Check(okOne, "ONE", "txtar.Parse#through-search", parse.Pos(), "every return of Parse is dominated by a call of the marker search")
+	}
 	inputReadOnly(ctx, "RO", []*ssa.Function{parse, parseFile})
 	scanFromCandidate(ctx, "SCAN")
 	parseFileRaw(ctx, "RAW")
@@ -72,6 +94,29 @@ func runC03(ctx *core.Ctx) {
 				}
 			}
 			ctx.Check(trimmed, "NAME", shortFn(f)+"#name-trim"+itoa(k+1), r.Pos(), "the name is trimmed with TrimSpace (all Unicode white space, as the reference parser does)")
+			// the text that is trimmed is the line between its opening and its *closing* delimiter: a
+			// re-slice of the line with both bounds given, not the result of another search (cutting at
+			// the first " --" shortens a name that itself contains " --")
+			between := false
+			if trimmed {
+				var arg ssa.Value
+				if isC {
+					arg = c.Call.Args[0]
+				} else if cv, ok := v.(*ssa.Convert); ok {
+					arg = cv.X.(*ssa.Call).Call.Args[0]
+				}
+				for {
+					cv, ok := arg.(*ssa.Convert)
+					if !ok {
+						break
+					}
+					arg = cv.X
+				}
+				if sl, ok := arg.(*ssa.Slice); ok && sl.Low != nil && sl.High != nil {
+					between = true
+				}
+			}
+			ctx.Check(between, "NAME", shortFn(f)+"#name-span"+itoa(k+1), r.Pos(), "the name is the span of the line between the opening delimiter and the closing one (both slice bounds explicit)")
 		}
 	}
 
